@@ -263,11 +263,10 @@ def check_pairing(P, R):
         R.saw(f)
         restores = [x for x in f.walk() if x.get("k") == "BinaryOperator" and x.get("op") == "=" and const_of(x["c"][1]) == 10 and
                     strip(x["c"][0]).get("k") == "ArraySubscriptExpr"]
-        writes = [c for c in f.calls("__io_write") if "llen + 1" in expr_text(strip(call_args(c)[1]))]
-        if restores and writes:
-            R.ob(rule, "%s: newline restored at line[llen] and llen + 1 bytes written" % unit, True)
+        if restores:
+            R.ob(rule, "%s: newline restored in place (position and length: RF11-sed)" % unit, True)
         else:
-            R.finding(rule, f, "newline restore [%s]" % unit, "the sed-mode copy-through path must put the newline back at line[llen] and write llen + 1 bytes")
+            R.finding(rule, f, "newline restore [%s]" % unit, "the sed-mode copy-through path must put the newline back where the reader stamped it")
         if "\r" in stamped:
             cr = [x for x in f.walk() if x.get("k") == "BinaryOperator" and x.get("op") == "=" and const_of(x["c"][1]) == 13]
             if cr:
@@ -278,6 +277,64 @@ def check_pairing(P, R):
                           "out as LF in sed mode")
 
 
+def _lin(e, env):
+    """symbolic linear form of an integer/pointer expression: {symbol: coefficient}, constant under key 1"""
+    e = strip(e)
+    while e is not None and e.get("k") in CASTS and e.get("c"):
+        e = strip(e["c"][0])
+    if e is None:
+        return {}
+    c = const_of(e)
+    if c is not None and e.get("k") != "DeclRefExpr":
+        return {1: c}
+    if e.get("k") == "DeclRefExpr" and e.get("dk") in ("var", "parm"):
+        return dict(env.get(e["d"], {("v", e["d"]): 1}))
+    if e.get("k") == "BinaryOperator" and e.get("op") in ("+", "-"):
+        a, b = _lin(e["c"][0], env), _lin(e["c"][1], env)
+        sg = 1 if e["op"] == "+" else -1
+        out = dict(a)
+        for k2, v in b.items():
+            out[k2] = out.get(k2, 0) + sg * v
+        return {k2: v for k2, v in out.items() if v}
+    return {("e", e.get("i")): 1}
+
+
+def _sym_block(f, blk_id, env=None):
+    """run the assignments of one straight-line CFG block symbolically; yields (node, env-before) for calls and stores"""
+    env = dict(env or {})
+    cfg = f.cfg
+    events = []
+    for e in cfg.blocks[blk_id]["e"]:
+        n = f.nodes.get(e)
+        if n is None:
+            continue
+        k = n.get("k")
+        if k == "CallExpr":
+            events.append((n, dict(env)))
+        elif k == "BinaryOperator" and n.get("op") == "=":
+            l = strip(n["c"][0])
+            if l is not None and l.get("k") == "DeclRefExpr":
+                env[l["d"]] = _lin(n["c"][1], env)
+            else:
+                events.append((n, dict(env)))
+        elif k == "CompoundAssignOperator" and n.get("op") in ("+=", "-="):
+            l = strip(n["c"][0])
+            if l is not None and l.get("k") == "DeclRefExpr":
+                synth = {"k": "BinaryOperator", "op": n["op"][0], "c": [n["c"][0], n["c"][1]]}
+                env[l["d"]] = _lin(synth, env)
+        elif k == "UnaryOperator" and n.get("op") in ("++", "--"):
+            l = strip(n["c"][0])
+            if l is not None and l.get("k") == "DeclRefExpr":
+                cur = dict(env.get(l["d"], {("v", l["d"]): 1}))
+                cur[1] = cur.get(1, 0) + (1 if n["op"] == "++" else -1)
+                env[l["d"]] = {k2: v for k2, v in cur.items() if v}
+        elif k in ("DeclStmt", "Var"):
+            for v in ([n] if k == "Var" else kids(n)):
+                if v.get("k") == "Var" and kids(v):
+                    env[v["d"]] = _lin(kids(v)[0], env)
+    return events, env
+
+
 def check_sed(P, R):
     rule = "RF11-sed"
     for unit in ("dconv.c", "dadd.c", "dround.c"):
@@ -285,39 +342,87 @@ def check_sed(P, R):
         f = t.func("proc_line")
         R.saw(f)
         cfg = f.cfg
-        pre = [c for c in f.calls("__io_write") if re.match(r"\(sp - line\)$", expr_text(strip(call_args(c)[1])))]
-        conv = [c for c in f.calls("dt_io_write")]
-        if len(pre) != 1:
-            R.finding(rule, f, "prefix write [%s]" % unit, "the unmatched text before a match must be written as __io_write(line, sp - line) exactly once "
-                      "per match; found %d such writes" % len(pre))
-            continue
-        pb = cfg.stmt_block(pre[0]["i"])[0]
-        # a conversion write follows in the same straight-line region, then line = ep and llen -= (ep - line)
-        after = [c for c in conv if cfg.stmt_block(c["i"])[0] == pb or cfg.stmt_block(c["i"])[0] in cfg.reachable_from(pb)]
-        asg = {expr_text(strip(x["c"][0])): expr_text(strip(x["c"][1])) for x in f.walk()
-               if x.get("k") in ("BinaryOperator", "CompoundAssignOperator") and x.get("op") in ("=", "-=") and
-               cfg.stmt_block(x["i"]) and cfg.stmt_block(x["i"])[0] == pb}
-        ok = bool(after) and asg.get("line") == "ep" and asg.get("llen") == "(ep - line)"
-        # order inside the block: llen update must use the old line
-        order = [expr_text(strip(x["c"][0])) for x in f.walk() if x.get("k") in ("BinaryOperator", "CompoundAssignOperator") and
-                 x.get("op") in ("=", "-=") and cfg.stmt_block(x["i"]) and cfg.stmt_block(x["i"])[0] == pb and
-                 expr_text(strip(x["c"][0])) in ("line", "llen")]
-        if ok and order == ["llen", "line"]:
-            R.ob(rule, "%s: prefix, converted value, continue behind the match" % unit, True)
-        else:
-            R.finding(rule, f, "match step [%s]" % unit, "after a match the loop must write the prefix and the converted value, shorten llen by (ep - line) "
-                      "and then set line = ep; found assignments %s in order %s" % (asg, order), pre[0])
-        # the tail is written on the no-more-match path only, once
-        tails = [c for c in f.calls("__io_write") if "llen + 1" in expr_text(strip(call_args(c)[1]))]
-        if len(tails) == 1:
-            tb = cfg.stmt_block(tails[0]["i"])[0]
-            loops_back = tb in set().union(*[cfg.reachable_from(s) for s in cfg.succs[tb]]) if cfg.succs[tb] else False
-            if not loops_back:
-                R.ob(rule, "%s: rest of the line written once, then the loop is left" % unit, True)
-            else:
-                R.finding(rule, f, "tail write [%s]" % unit, "the rest of the line can be written more than once", tails[0])
-        else:
-            R.finding(rule, f, "tail write [%s]" % unit, "the rest of the line must be written at exactly one place; found %d" % len(tails))
+        if len(f.params) < 3:
+            raise AnalysisBroken("%s: proc_line(ctx, line, llen) of %s changed its signature" % (rule, unit))
+        LINE, LLEN = f.params[1]["d"], f.params[2]["d"]
+        # the finder call names the match bounds: dt_io_find_strpdt2(line, llen, needles, &sp, &ep, zone)
+        SP = EP = None
+        for c in f.calls("dt_io_find_strpdt2"):
+            a = call_args(c)
+            vs = []
+            for x in a[3:5]:
+                x = strip(x)
+                if x is not None and x.get("k") == "UnaryOperator" and x.get("op") == "&" and strip(x["c"][0]).get("k") == "DeclRefExpr":
+                    vs.append(strip(x["c"][0])["d"])
+            if len(vs) == 2:
+                SP, EP = vs
+            if _lin(a[0], {}) != {("v", LINE): 1} or _lin(a[1], {}) != {("v", LLEN): 1}:
+                R.finding(rule, f, "finder arguments [%s]" % unit, "the finder must be run on the rest of the line (line, llen)", c)
+        if SP is None:
+            raise AnalysisBroken("%s: the finder call of proc_line in %s was not recognised" % (rule, unit))
+        vL, vN, vS, vE = ("v", LINE), ("v", LLEN), ("v", SP), ("v", EP)
+        n_match = n_tail = 0
+        for b in cfg.blocks:
+            events, env = _sym_block(f, b)
+            writes = [(n, ev) for n, ev in events if n.get("k") == "CallExpr" and n.get("callee") == "__io_write"]
+            convs = [(n, ev) for n, ev in events if n.get("k") == "CallExpr" and n.get("callee") == "dt_io_write"]
+            stores = [(n, ev) for n, ev in events if n.get("k") == "BinaryOperator"]
+            sedconv = [c for c, _ in convs if const_of(call_args(c)[-1]) == 0]
+            for n, ev in writes:
+                a = call_args(n)
+                ptr, ln = _lin(a[0], ev), _lin(a[1], ev)
+                if sedconv and not (ptr == {vL: 1} and ln == {vS: 1, vL: -1}):
+                    n_match += 1
+                    R.finding(rule, f, "prefix write [%s]" % unit, "next to the converted value the loop must write exactly the unmatched text "
+                              "[line, sp); it writes %s bytes from %s" % (_show(f, ln), _show(f, ptr)), n)
+                elif ptr == {vL: 1} and ln == {vS: 1, vL: -1}:
+                    # the match step
+                    n_match += 1
+                    order = [x.get("i") for x, _ in events]
+                    after = [c for c, _ in convs if order.index(c.get("i")) > order.index(n.get("i"))]
+                    endl, endn = env.get(LINE, {vL: 1}), env.get(LLEN, {vN: 1})
+                    ok = bool(after) and endl == {vE: 1} and endn == {vN: 1, vL: 1, vE: -1}
+                    if ok:
+                        R.ob(rule, "%s: prefix [line, sp), converted value, continue at ep with llen - (ep - line)" % unit, True)
+                    else:
+                        R.finding(rule, f, "match step [%s]" % unit, "after writing the prefix [line, sp) the loop must write the converted value and "
+                                  "continue with line = ep, llen = llen - (ep - line); the block ends with line = %s, llen = %s, converted "
+                                  "value written afterwards: %s" % (_show(f, endl), _show(f, endn), bool(after)), n)
+                elif set(ptr) == {vL} or (ptr.get(vL) == 1 and ln.get(vN)):
+                    # the rest of the line: the stamped position gets its newline back and is included
+                    n_tail += 1
+                    st_ok = False
+                    for sn, sev in stores:
+                        l = strip(sn["c"][0])
+                        if l.get("k") == "ArraySubscriptExpr" and const_of(sn["c"][1]) == 10:
+                            pos = _lin({"k": "BinaryOperator", "op": "+", "c": [l["c"][0], l["c"][1]]}, sev)
+                            end = dict(ptr)
+                            for k2, v in ln.items():
+                                end[k2] = end.get(k2, 0) + v
+                            end[1] = end.get(1, 0) - 1
+                            end = {k2: v for k2, v in end.items() if v}
+                            if pos == end:
+                                st_ok = True
+                    succ_loop = any(b in cfg.reachable_from(s2) for s2 in cfg.succs[b])
+                    if st_ok and not succ_loop:
+                        R.ob(rule, "%s: rest of the line written once with its newline, then the loop is left" % unit, True)
+                    elif not st_ok:
+                        R.finding(rule, f, "tail write [%s]" % unit, "the rest of the line must be written through the restored newline: a store of "
+                                  "'\\n' at the last byte written", n)
+                    else:
+                        R.finding(rule, f, "tail write [%s]" % unit, "the rest of the line can be written more than once (the loop continues)", n)
+        if n_match != 1 or n_tail != 1:
+            raise AnalysisBroken("%s: sed-mode shape of proc_line in %s not recognised (%d match steps, %d tail writes)" % (rule, unit, n_match, n_tail))
+
+
+def _show(f, lin):
+    names = {x["d"]: x["n"] for x in f.walk() if x.get("k") == "Var"}
+    names.update({p["d"]: p["n"] for p in f.params})
+    out = []
+    for k2, v in lin.items():
+        nm = str(k2) if k2 == 1 else (names.get(k2[1], "?") if k2[0] == "v" else "<expr>")
+        out.append(("%+d" % v) + ("" if k2 == 1 else "*" + nm))
+    return " ".join(out) or "0"
 
 
 def check(P, R, tier):
